@@ -994,3 +994,36 @@ func rawEq(a, b any) (eq bool, ok bool) {
 	}()
 	return a == b, true
 }
+
+
+// Latin1All applies latin1 to every object key and every string value (see Latin1Keys).
+func (v V) Latin1All() (V, bool) {
+	switch v.K {
+	case KString:
+		return VStr(latin1(v.S)), true
+	case KList:
+		out := V{K: KList, L: make([]V, len(v.L))}
+		for i, e := range v.L {
+			x, ok := e.Latin1All()
+			if !ok {
+				return V{}, false
+			}
+			out.L[i] = x
+		}
+		return out, true
+	case KObject:
+		out := V{K: KObject, O: make([]Pair, len(v.O))}
+		seen := map[string]bool{}
+		for i, p := range v.O {
+			k := latin1(p.K)
+			x, ok := p.V.Latin1All()
+			if !ok || seen[k] {
+				return V{}, false
+			}
+			seen[k] = true
+			out.O[i] = Pair{k, x}
+		}
+		return out, true
+	}
+	return v, true
+}
